@@ -814,6 +814,7 @@ func TestVerifC06(t *testing.T) {
 		w.random(t, rs)
 	}
 	w.proposerStreams(t)
+	w.hashStream(t)
 	hs := v.Stream("rep_h", "replica_mismatches", 300)
 	for n := 2; n <= v.Pick(5, 7); n++ {
 		w.holes(t, hs, n, !v.Thorough())
